@@ -657,6 +657,10 @@ func (d *Dialer) DialContext(ctx context.Context, network, address string) (net.
 	if err != nil {
 		return nil, err
 	}
+	// a connection dialled by code under test (nsqd to nsqlookupd or to an auth
+	// server, nsqadmin to its upstreams, the applications' consumers and
+	// producers): its reads are subject to TCP segmentation like everybody's
+	c.ShortReads = true
 	return c, nil
 }
 
